@@ -31,6 +31,7 @@ pub fn def() -> PropDef {
         block: 3,
         flavours: &["tokio", "asyncstd", "smol"],
         outcome: Some(outcome),
+        extra_profiles: &[],
     }
 }
 
